@@ -85,12 +85,17 @@ func runC09Fresh(x *mc.X) {
 	var r c01Resp
 	r.maxAge = mc.Pick(x, "resp.max-age", []string{"", "10", "3600", "2147483648", "9223372037"})
 	r.expires = mc.Pick(x, "resp.expires", []string{"", "10", "3600"})
-	r.lm = mc.Pick(x, "resp.last-modified", []string{"", "-1000", "-1500000000"})
+	r.lm = mc.Pick(x, "resp.last-modified", []string{"", "-1000", "-1500000000", "epoch"})
 	r.date = mc.Pick(x, "resp.date", []string{"now", "-5", "+5", "absent"})
 	r.age = mc.Pick(x, "resp.age", []string{"", "0", "5"})
 	r.status = mc.Pick(x, "resp.status", c09Statuses)
 	r.delay = mc.Pick(x, "resp.delay", []int64{0, 3})
 	backend := mc.Pick(x, "backend", c09Backends)
+	// request directives that do not demand validation: the stored response is still the answer
+	reqCC := ""
+	if r.delay == 0 && r.date == "now" && r.age == "" {
+		reqCC = mc.Pick(x, "request.cache-control", []string{"", "no-store", "max-stale=5", "min-fresh=1", "no-transform"})
+	}
 	if r.maxAge == "" && r.expires == "" && r.lm == "" {
 		x.Skip() // no freshness information at all: not a cacheable response in the sense of the property
 	}
@@ -122,8 +127,13 @@ func runC09Fresh(x *mc.X) {
 	w2 := reopen()
 	answer(w2, RS{Status: 200, H: H("Cache-Control", "no-store")})
 	now := time.Now()
-	o2 := get(w2, U)
-	logObs(x, fmt.Sprintf("GET after %ds", elapsed), o2)
+	var o2 *world.Obs
+	if reqCC != "" {
+		o2 = get(w2, U, "Cache-Control", reqCC)
+	} else {
+		o2 = get(w2, U)
+	}
+	logObs(x, fmt.Sprintf("GET after %ds Cache-Control=%q", elapsed, reqCC), o2)
 	ages := st.Ages(now)
 	cls := fmt.Sprintf("fresh/%s/%d/%s", minLife.Why, r.status, backend)
 	x.Nontrivial(cls)
@@ -133,8 +143,8 @@ func runC09Fresh(x *mc.X) {
 	if o2.Panic != nil || o2.Err != nil {
 		return
 	}
-	if !minLife.FreshAt(oracle.MaxAge(ages) + 1) {
-		return // not fresh by more than a second under every reading
+	if !minLife.FreshAt(oracle.MaxAge(ages) + 1 + map[bool]int64{true: 1}[reqCC == "min-fresh=1"]) {
+		return // not fresh by more than a second (plus the request's min-fresh) under every reading
 	}
 	if o2.Tok != o1.Tok || len(o2.Calls) != 0 {
 		x.Failf(fmt.Sprintf("fresh response not served from the store: lifetime(%s) status=%d backend=%s", minLife.Why, r.status, backend),
